@@ -53,7 +53,9 @@ class Numpy:
             return {"text": pad + [f">>> d{i} = 1", f">>> d{i}"][v % 2]}
         if k == "line":
             if a == "N":
-                text = [name, f"Some d{i} text.", f"*{name}", f"Note d{i}"][v % 4]
+                return {"text": pad + name, "names": [name], "type": None, "whole": name}
+            if a == "P":
+                text = [f"Some d{i} text.", f"*{name}", f"Note d{i}", f"_{name} d{i}"][v % 4]
                 return {"text": pad + text, "names": [text.split(" ")[0].split(".")[0] if " " in text else text], "type": None, "whole": text}
             if a == "NT":
                 opt = ", optional" if v % 2 else ""
@@ -129,8 +131,10 @@ class Numpy:
                 form = "NK" if mR and (mR.group("name") or "") == names[0] else "?"
             elif "(" in body:
                 form = "F"
-            else:
+            elif re.fullmatch(r"[A-Za-z][A-Za-z0-9]*", body):
                 form = "N"
+            else:
+                form = "P"
         return {"k": "line", "ind": ind, "a": form}
 
     def long_alphabet(self) -> list:
@@ -139,7 +143,7 @@ class Numpy:
 
         out = [rec("blank", 0), rec("dash", 0), rec("dash", 4), rec("fence", 0), rec("fence", 4), rec("prompt", 0)]
         out += [rec("hdr", 0, k) for k in sorted(self.keywords)]
-        out += [rec("line", 0, f) for f in ("N", "NT", "NK", "C", "CT", "NN", "NC", "ND", "F", "X")]
+        out += [rec("line", 0, f) for f in ("N", "P", "NT", "NK", "C", "CT", "NN", "NC", "ND", "F", "X")]
         out += [rec("line", 2, "X"), rec("line", 4, "X"), rec("line", 4, "C"), rec("line", 4, "NT")]
         return out
 
@@ -257,7 +261,9 @@ class Numpy:
                     names = p.get("names") or [whole]
                     if nm == "n" and (ri["name"] or "").strip() != names[min(si["which"], len(names) - 1)] and (ri["name"] or "").strip() != whole:
                         soft = soft or f"section {j} item {m} name {ri['name']!r} != written {names!r}"
-                    if nm == "e" and ri["name"] != "":
+                    if nm == "x":
+                        pass
+                    elif nm == "e" and ri["name"] != "":
                         soft = soft or f"section {j} item {m} name {ri['name']!r}, spec says empty"
                     if nm == "l" and (ri["name"] or "").strip() != whole:
                         soft = soft or f"section {j} item {m} name {ri['name']!r}, spec says the whole line {whole!r}"
